@@ -119,6 +119,14 @@ def _opaque_encode():
         enc = encoding.lower().replace("-", "").replace("_", "") if isinstance(encoding, str) else ""
         if enc == "utf8" and errors in ("surrogateescape", "backslashreplace"):
             return SymBytes([self])
+        if enc in ("utf8", "ascii", "latin1", "iso88591") and errors == "strict":
+            # CrossHair's codec model lets lone surrogates through a strict encode; CPython raises
+            i = 0
+            for ch in self:
+                cp = ord(ch)
+                if 0xD800 <= cp <= 0xDFFF:
+                    raise UnicodeEncodeError(encoding, "?", i, i + 1, "surrogates not allowed")
+                i += 1
         return orig(self, encoding, errors)
 
     bl.AnySymbolicStr.encode = encode
